@@ -26,8 +26,8 @@ na = [{"property_id": p, "reason": TEXT.get("_not_claimed", {}).get(p, "not clai
 m = {
     "version": 1,
     "setup_cmd": "./check --setup",
-    "hooks": {"guard": "cargo feature verif-hooks (crate cgt-formatter-pdf)", "enable": "harness depends on cgt-formatter-pdf with features=[\"verif-hooks\"]; no hook is needed by the checks registered so far",
-              "baseline_off_cmd": "cd /repo && cargo test --workspace --no-fail-fast --offline", "source_commits": [], "add_only": True},
+    "hooks": {"guard": "cargo feature verif-hooks (crate cgt-formatter-pdf)", "enable": "harness depends on cgt-formatter-pdf with features=[\"verif-hooks\"]; used by ./check C17 (harness_pdf) only",
+              "baseline_off_cmd": "cd /repo && cargo test --workspace --no-fail-fast --offline", "source_commits": ["6d9d2c4"], "add_only": True},
     "engines": [{"name": "coq-model-correspondence", "path": "/verif/check", "serves_properties": [c["property_id"] for c in checks],
                  "kind_free_text": "hand-written executable Gallina model (coq/Model), theorems per property (coq/Props) checked by coqc with Print Assumptions audit, model extracted to OCaml and compared with the Rust library built from /repo's working tree on generated inputs; code-only property oracles locate failing inputs"}],
     "checks": checks,
